@@ -59,6 +59,8 @@ type Parser struct {
 	curToken  *ast.Meta
 	peekToken *ast.Meta
 	level     int
+	depth     int // nesting depth of the expression or block being parsed, see deepen()
+	height    int // height of the tallest expression completed so far below the one being parsed
 
 	prefixParsers  map[token.TokenType]prefixParser
 	infixParsers   map[token.TokenType]infixParser
